@@ -245,7 +245,7 @@ def fam_destroying(c, N, sz):
 
 class C05(Plan):
     pid = "C05"
-    corr = ("r-", "st", "sz", "c", "e", "f")
+    corr = ("r-", "sz", "c", "e", "f")
     spec = ("r-", "c", "e")
     no_leak = False
 
@@ -305,7 +305,7 @@ def fam_usercode(kind):
 
 class C06(Plan):
     pid = "C06"
-    corr = ("r-", "st", "sz", "c", "e", "f")
+    corr = ("r-", "sz", "c", "e", "f")
     spec = ("r-", "c", "e")
     no_leak_faults = True
 
@@ -373,7 +373,7 @@ class C08(Plan):
 
 class C09(Plan):
     pid = "C09"
-    corr = ("r-", "st", "sz", "c", "e")
+    corr = ("r-", "sz", "c", "e")
     spec = ("r-", "c", "e")
 
     def gen(self, tier, seed):
@@ -391,7 +391,7 @@ class C09(Plan):
 
 class C10(Plan):
     pid = "C10"
-    corr = ("r-", "st", "sz", "c", "e")
+    corr = ("r-", "sz", "c", "e")
     spec = ("r-", "c", "e")
     no_leak = False
 
@@ -462,7 +462,7 @@ class C11(Plan):
 
 class C12(Plan):
     pid = "C12"
-    corr = ("r-", "st", "sz", "c", "e", "f")
+    corr = ("r-", "sz", "c", "e", "f")
     spec = ("r-", "c", "e")
 
     def gen(self, tier, seed):
